@@ -243,7 +243,17 @@ func (e *c08Env) deliver(t kemtypes.WatchEventType, name string, obj map[string]
 func (e *c08Env) record(t kemtypes.WatchEventType, name string, obj map[string]any, evs []kemtypes.KubeEvent) {
 	fired, got, fr := "-", 0, "-"
 	if len(evs) == 1 && len(evs[0].Objects) == 1 && len(evs[0].WatchEvents) == 1 && evs[0].Type == kemtypes.TypeEvent {
-		fired = string(evs[0].WatchEvents[0]) + ":" + e.entry(&evs[0].Objects[0])
+		if evs[0].WatchEvents[0] == kemtypes.WatchEventDeleted {
+			// the checksum of a deleted object is not part of the observation
+			o := &evs[0].Objects[0]
+			full := 0
+			if o.Object != nil {
+				full = 1
+			}
+			fired = fmt.Sprintf("Deleted:%d@-:fr=%s:obj=%d", e.ids.Id(g4NameOf(o.Metadata.ResourceId)), g4FrText(o), full)
+		} else {
+			fired = string(evs[0].WatchEvents[0]) + ":" + e.entry(&evs[0].Objects[0])
+		}
 		got = 1
 		fr = g4FrText(&evs[0].Objects[0])
 	} else if len(evs) != 0 {
@@ -450,6 +460,20 @@ func runC08(r *Run) {
 			e.deliver(kemtypes.WatchEventDeleted, "o1", o3)
 		})
 	}
+	r.One(6, func(c *Case, _ *Rng) {
+		c.Desc = "corpus: a cached object is deleted in a state the filter fails on (.spec.replicas.x, replicas a number): Deleted is reported all the same"
+		c.Nontrivial = true
+		ns := fmt.Sprintf("c08-%d", c.Idx)
+		e := c08Setup(c, g4AllTypes, false, g4Path("spec", "replicas", "x"), true, nil)
+		good := c08Obj(ns, "o1", 1, "x", 0)
+		g4DelPath(good, []string{"spec", "replicas"})
+		e.jqProbe(good)
+		e.deliver(kemtypes.WatchEventAdded, "o1", good)
+		bad := c08Obj(ns, "o1", 1, "x", 0)
+		e.jqProbe(bad)
+		e.deliver(kemtypes.WatchEventDeleted, "o1", bad)
+		e.deliver(kemtypes.WatchEventDeleted, "o2", c08Obj(ns, "o2", 2, "y", 0)) // unknown object, failing filter
+	})
 	r.One(5, func(c *Case, _ *Rng) {
 		c.Desc = "corpus: a filter that fails on the object (.spec.replicas.x on a number) — the change is ignored"
 		c.Nontrivial = true
